@@ -86,7 +86,13 @@ pub fn replay_case(case: &Value, tally: &mut Tally) {
     let calls: Vec<Value> = case["steps"].as_array().unwrap().iter().map(|s| { let mut c = s["c"].clone(); if let Some(v) = c.get("v") { c["v"] = json!(format!("{:#x}", set_to_u64(v))); } c }).collect();
     let ctx = |i: i64, what: &str| json!({"kind": "writer", "cfg": cfg, "ending": case["ending"], "calls": calls, "step": i, "what": what});
     let path = scratch("verif-writer");
-    let (mut w, mut m) = match open(cfg, &path) { Ok(x) => x, Err(e) => { tally.check(ckey, true, &|| ctx(-1, "open"), &json!("ok"), &json!(e.to_string())); return; } };
+    // the file exists already and is longer than what will be written: the writer must replace it
+    let _ = std::fs::write(&path, vec![0xFFu8; 4096 + 24]);
+    // every third case through the constructors with the default buffer size (the buffer size is not observable)
+    let mut cfg_new = cfg.clone();
+    if tally.cases % 3 == 0 { cfg_new["default_buf"] = json!(1); }
+    let cfg_open = &cfg_new;
+    let (mut w, mut m) = match open(cfg_open, &path) { Ok(x) => x, Err(e) => { tally.check(ckey, true, &|| ctx(-1, "open"), &json!("ok"), &json!(e.to_string())); return; } };
     let mut key = ckey;
     for (i, s) in case["steps"].as_array().unwrap().iter().enumerate() {
         key = hkey(&[key, hstr(&s["c"]["op"].to_string()), i as u64]);
@@ -120,6 +126,7 @@ pub fn record_writer(seed: u64, thorough: bool, path: &str) -> Value {
         let mut cfg = json!({"kind": if raw { "raw" } else { "int" }, "width": width, "buf": buf});
         if r % 11 == 10 { cfg["default_buf"] = json!(1); }
         let fname = scratch("verif-rec-writer");
+        let _ = std::fs::write(&fname, vec![0xFFu8; 8192 + 8]);
         let (mut w, mut m) = match open(&cfg, &fname) { Ok(x) => x, Err(_) => continue };
         out.push(json!({"e": "w_new", "cfg": cfg, "obs": w.observe()}));
         let n = match rng.below(4) { 0 => rng.below(5), 1 => rng.below(100), _ => rng.below(if thorough { 5000 } else { 1500 }) };
